@@ -503,8 +503,17 @@ func runGetAll(s iterScript, g getAllArgs) (line string) {
 			} else {
 				args = append(args, &people)
 			}
-		default: // invalid destinations for ScanArgs: an extra slice of a type the query does not use
-			args = append(args, &people, &[]Address{})
+		default: // invalid destinations for ScanArgs: a slice of a type the query does not use
+			switch s.resultID % 4 {
+			case 0:
+				args = append(args, &[]map[string]any{}) // unnamed map
+			case 1:
+				args = append(args, &[]map[int]any{}) // key type is not string
+			case 2:
+				args = append(args, &people, &[]BadMap{})
+			default:
+				args = append(args, &people, &[]Address{})
+			}
 		}
 	}
 	err := e.q.GetAll(args...)
